@@ -255,14 +255,14 @@ def syncAll (shard steps : Nat) : Loc → World → World × Except Err Unit
 /-- `doSyncLocked()` = `Flush()` (under the store mutex) -/
 def flush (st : Store) (ord : List (Str × Str)) (w : World) : Store × World × Res :=
   match syncAll sh st.cfg.shard st.cfg.steps (arrange ord st.loc) w with
-  | (w, .error e) => (st, w, .err e)
+  | (w, .error _) => (st, w, .err .other)      -- `fmt.Errorf("sync %v error: %v", …)`: the class is lost
   | (w, .ok _) => (st, w, .ok)
 
 /-- `Stop()` -/
 def stop (st : Store) (ord : List (Str × Str)) (w : World) : Store × World × Res :=
   if st.stopped then (st, w, .ok)
   else match syncAll sh st.cfg.shard st.cfg.steps (arrange ord st.loc) w with
-    | (w, .error e) => (st, w, .err e)
+    | (w, .error _) => (st, w, .err .other)
     | (w, .ok _) => ({ st with stopped := true }, w, .ok)
 
 /-- the loop of `Load` over `items.Items` -/
